@@ -173,7 +173,7 @@ def model_compare(ctx, periods, dt, amax):
             for name, arr, o in (('u', u[j], outs[3 * j]), ('v', v[j], outs[3 * j + 1]), ('a', ac[j], outs[3 * j + 2])):
                 m = p_floats(o)
                 pk = max(peak(arr), max((abs(x) for x in m), default=0.0), nat(amax, dt_f, T)['uva'.index(name)])
-                msg, g = cmp_budget([float(x) for x in arr], m, Fraction(1e-9 + 4 * extra), scale=pk, abs_floor=Fraction(1, 10 ** 300))
+                msg, g = cmp_budget([float(x) for x in arr], m, Fraction(1e-9 + 16 * extra), scale=pk, abs_floor=Fraction(1, 10 ** 300))
                 ctx.gap('response_series/' + name, g)
                 if msg:
                     return f"period[{j}] series {name}: {msg}"
@@ -781,4 +781,137 @@ _run_main = run
 def run(ctx):
     _run_main(ctx)
     extras(ctx, Impl(ctx))
+    ctx.flush()
+
+
+# ---- extras2 (harness extension hx_a): the relations themselves on LARGE records; containers for the relations -----------------------------
+#
+# (extras() above covers: rows independent for large jobs (spectra), homogeneity at extreme scales.)  Not demanded: a joint power-of-two rescaling
+# of dt and the periods (compute_a_and_b forms w ** 3 with libm pow, which need not commute with the scaling bit for bit).
+
+def extras2(ctx, im):
+    """LARGE records (6 000 - 60 000 samples; the main generators stop at 400 / 3 000): causality and the zero-prefix shift bit for bit (also for a
+    prefix of thousands of zeros), linearity (1e-9 of the peak), refinement by 2 and 3 (C01 tolerance at the refined step) and its consequence for
+    the spectra, order / batching of the period list for the SERIES (rows bit for bit); the same relations with the record given as an integer /
+    float32 / strided array or a list"""
+    rng = ctx.rng
+    sdof = im.sdof
+    quick = ctx.tier == 'quick'
+    for n in ([12000] if quick else [12000, 6000, 30000, 60000, 5001]):
+        dt = rng.choice([0.01, 0.005, 0.02])
+        env = np.exp(-((np.arange(n) - n / 3) / (n / 5)) ** 2)
+        a = gen.noise_record(rng, n) * env
+        a[0] = 0.0
+        b = gen.noise_record(rng, n) * env[::-1]
+        periods = sorted(dt * math.exp(rng.uniform(math.log(4), math.log(600))) for _ in range(3))
+        rng.shuffle(periods)
+        lead0 = rng.random() < 0.4
+        if lead0:
+            periods = [0.0] + periods
+        xi = rng.choice([0.02, 0.05, 0.3])
+        inp = {'acc': f'gaussian noise x gaussian envelope, n={n}, a[0] = 0 (seed-derived)', 'dt': dt, 'periods': periods, 'xi': xi, 'head': a[:4]}
+        ctx.hist(f'large-record/n={n}')
+        ctx.count_case(('x2-large', n, dt, tuple(periods), xi, a[:16].tobytes()), True, sample={'fn': 'relations on a large record', **inp})
+        base = im.resp(a, dt, periods, xi)
+        if base is None:
+            continue
+        P = len(periods)
+        # causality
+        s = rng.choice([n // 2, 4095, 4096, n - 2, 5000])
+        part = im.resp(a[:s + 1].copy(), dt, periods, xi)
+        ctx.oracle('C02.b causality: response of a[:i+1] == first i+1 samples of the response of a (==) [large record]',
+                   part is not None and all(y.shape == (P, s + 1) and np.array_equal(x[:, :s + 1], y) for x, y in zip(base, part)), {**inp, 'split_index': s})
+        a2 = a.copy()
+        a2[s + 1:] = a2[s + 1:][::-1] * 3.0 + 1.0
+        r2 = im.resp(a2, dt, periods, xi)
+        ctx.oracle('C02.b causality: samples after index i do not affect the response up to i (==) [large record]',
+                   r2 is not None and all(np.array_equal(x[:, :s + 1], y[:, :s + 1]) for x, y in zip(base, r2)), {**inp, 'i': s})
+        # zero-prefix shift
+        for kk in (rng.choice([1, 2, 50]), rng.choice([4096, 5000])):
+            r = im.resp(np.concatenate([np.zeros(kk), a]), dt, periods, xi)
+            ctx.oracle('C02.c shift: prepending zeros to a record starting at 0 delays the response by as many samples (==) [large record]',
+                       r is not None and all(x.shape == (P, n + kk) and np.all(x[:, :kk] == 0) and np.array_equal(x[:, kk:], y) for x, y in zip(r, base)), {**inp, 'k': kk})
+        # linearity
+        alpha, beta = rng.choice([-3.0, 0.5, 2.5]), rng.choice([1.0, -0.75, 4.0])
+        rb = im.resp(b, dt, periods, xi)
+        rc = im.resp(alpha * a + beta * b, dt, periods, xi)
+        if rb is not None and rc is not None:
+            worst, where = 0.0, None
+            amax = max(abs(alpha) * peak(a), abs(beta) * peak(b))
+            for name, x, y, z in zip('uva', rc, base, rb):
+                for j in range(P):
+                    sc = max(abs(alpha) * peak(y[j]), abs(beta) * peak(z[j]), FLOOR * nat(amax, dt, periods[j])['uva'.index(name)], 1e-300)
+                    e = peak(x[j] - (alpha * y[j] + beta * z[j])) / sc
+                    if e > worst:
+                        worst, where = e, (name, j)
+            ctx.gap('linearity(impl vs impl, large records)', worst)
+            ctx.oracle('C02.a linearity: response(alpha a + beta b) == alpha response(a) + beta response(b) (1e-9 of the peak) [large record]', worst <= 1e-9,
+                       {**inp, 'b': 'gaussian noise x mirrored envelope (seed-derived)', 'alpha': alpha, 'beta': beta}, detail={'err': worst, 'series,row': where})
+        # order and batching of the period list, for the series
+        perm = list(range(P))
+        rng.shuffle(perm)
+        body = [j for j in perm if periods[j] != 0]
+        rp = im.resp(a, dt, [periods[j] for j in body], xi)
+        ctx.oracle('C02.d each row depends on its period only: the series for a permuted period list are the permuted rows (==) [large record]',
+                   rp is not None and all(np.array_equal(x, y[body]) for x, y in zip(rp, base)), {**inp, 'order': body})
+        # refinement (a shorter stretch of the record keeps the quick tier quick)
+        m = n if not quick else 6000
+        am = a[:m]
+        for fac in ((2,) if quick else (2, 3)):
+            fine = np.interp(np.arange(fac * (m - 1) + 1) / fac, np.arange(m), am)
+            coarse = base if m == n else tuple(x[:, :m] for x in base)       # by causality (checked above)
+            ref = im.resp(fine, dt / fac, periods, xi)
+            if ref is None:
+                continue
+            ok, worst, where = refine_check(coarse, ref, fac, m, periods, xi, dt / fac, m * dt, peak(am), dt)
+            ctx.gap('refinement(relative to property tolerance, large records)', worst)
+            ctx.oracle('C02.e refinement by an integer factor leaves the response at the original instants unchanged (C01 tolerance at the refined step) [large record]', ok,
+                       {**inp, 'r': fac, 'first_samples_used': m}, detail={'worst (series,row,err,tol)': where})
+            parr = np.array(periods)
+            s1, s2 = call_impl(sdof.pseudo_response_spectra, am, dt, parr, xi), call_impl(sdof.pseudo_response_spectra, fine, dt / fac, parr, xi)
+            if s1[0] == s2[0] == 'ok':
+                tols = np.array([prop_tol(dt / fac, T, m * dt) for T in periods])
+                ctx.oracle('C02.e spectral displacement never decreases under refinement (beyond the C01 tolerance) [large record]', bool(np.all(s2[1][0] >= s1[1][0] * (1 - tols))),
+                           {**inp, 'r': fac, 'first_samples_used': m}, detail={'S_d raw': s1[1][0], 'S_d refined': s2[1][0]})
+    # the relations with other containers / dtypes of the record: causality and shift stay bit-exact, scaling by 2^k stays exact
+    for it in range(10 if quick else 100):
+        n = gen.log_int(rng, 3, 100)
+        dt = pick_dt(rng)
+        a = gen.int_record(rng, n)
+        a[0] = 0.0
+        periods, lead0 = pick_periods(rng, dt, hi=3)
+        xi = pick_xi(rng)
+        base = im.resp(a, dt, periods, xi)
+        if base is None:
+            continue
+        ctx.count_case(('x2-cont', a.tobytes(), dt, tuple(periods), xi), gen.nontrivial_record(a))
+        variants = [(lab, c, a) for lab, c in gen.container_variants(a)] + gen.narrow_int_variants(a)
+        lab, c, fl = rng.choice(variants)
+        ctx.hist('record container=' + lab)
+        inp = {'acc': fl, 'dt': dt, 'periods': periods, 'xi': xi, 'container': lab}
+        is_arr = isinstance(c, np.ndarray)
+        s = rng.randrange(n)
+        kk = rng.choice([1, 3, 17])
+        cut = c[:s + 1]
+        pre = (np.concatenate([np.zeros(kk, dtype=c.dtype), c]) if is_arr else type(c)([0] * kk) + c)
+        full = call_impl(sdof.response_series, c, dt, periods, xi)
+        part = call_impl(sdof.response_series, cut, dt, periods, xi)
+        shf = call_impl(sdof.response_series, pre, dt, periods, xi)
+        want = base if fl is a else im.resp(fl, dt, periods, xi)
+        ctx.oracle('C02 the response of a record given as list / tuple / integer (any width) / float32 / strided ndarray == that of the same numbers in float64 (==)',
+                   full[0] == 'ok' and want is not None and eq3(full[1], want), inp)
+        if full[0] == 'ok':
+            ctx.oracle('C02.b causality for every record container: response of a[:i+1] == first i+1 samples of the response of a (==)',
+                       part[0] == 'ok' and all(np.array_equal(x[:, :s + 1], y) for x, y in zip(full[1], part[1])), {**inp, 'split_index': s})
+            if fl[0] == 0:      # (the unsigned variants are offset: they do not start at zero, the relation does not apply)
+                ctx.oracle('C02.c shift for every record container: prepending zeros to a record starting at 0 delays the response by as many samples (==)',
+                           shf[0] == 'ok' and all(np.all(x[:, :kk] == 0) and np.array_equal(x[:, kk:], y) for x, y in zip(shf[1], full[1])), {**inp, 'k': kk})
+
+
+_run_main2 = run
+
+
+def run(ctx):
+    _run_main2(ctx)
+    extras2(ctx, Impl(ctx))
     ctx.flush()
